@@ -484,9 +484,9 @@ fn parent(id: &str, tier: Tier) -> i32 {
         super::sut::global_init();
         super::sut::capture_init();
         let runs: u64 = std::env::var("VERIF_FUZZ_RUNS").ok().and_then(|s| s.parse().ok()).unwrap_or(match id {
-            "C01" => 1_500_000,
+            "C01" => 600_000,
             "C11" => 150_000,
-            _ => 300_000,
+            _ => 250_000,
         });
         let fo = super::fuzzrun::run(id, seed, &verif_dir(), &work, runs, w);
         total.evaluations += fo.executed;
